@@ -399,7 +399,7 @@ def gen(run):
         if k not in seen and c.get("eol", "LF") == "LF":
             seen.add(k)
             singles.append(c)
-    for fam, cap in (("headers", 120), ("postings", 120), ("pairs", 80), ("desc-chars", 150), ("lexicon", 200)):
+    for fam, cap in (("headers", 120), ("postings", 120), ("pairs", 80), ("desc-chars", 100), ("lexicon", 120)):
         cs = run.tlc("JournalGen", jcommon.gen_cfg(fam, 6, True), workers=8, timeout=2400).json
         cs = [c for c in cs if not c["trig"]]
         if not thorough or len(cs) > cap * 10:
